@@ -25,7 +25,7 @@ type Case struct {
 func TestMain(m *testing.M) {
 	h.Setup("C02",
 		"F-full ASTs (nullable loops, \\G, balancing groups, Unicode classes, sparse numbered groups), F-accel templates and harvested corpus patterns x all nine option bits x compile options (code-gen analysis, ASCII bitmap, capture order) x pattern-directed / random byte strings of 0-12 runes with multi-byte and invalid UTF-8, and for about 1/5 of the patterns every string of up to 4-5 symbols over 2-3 pattern-derived symbols plus one hostile symbol (invalid byte, U+FFFD, multi-byte rune); one evaluation = one (pattern,input) on which MatchString, MatchRunes, FindStringMatch, FindRunesMatch, both StartingAt variants at every aligned offset, both FindNextMatch iterations, FindAllRunesIndex/FindAllStringIndex (n in {-1,1,2}), 16 compat adapter methods, and the match enumeration inside ReplaceFunc, Replace and Split are compared; non-trivial = some entry point reports a match and the case exercises a divergent path (string prefix filter present, bool-only program present, non-ASCII input, or RightToLeft); distinct = hash of (pattern, options, compile options, input)",
-		map[string]float64{"prefix-filter": 0.15, "quickcode": 0.10, "invalid-utf8": 0.10, "rtl": 0.10, "has-G/patterns": 0.012, "match": 0.2},
+		map[string]float64{"prefix-filter": 0.15, "quickcode": 0.10, "invalid-utf8": 0.10, "rtl": 0.10, "has-G/patterns": 0.012, "match": 0.12},
 		"outputs of Replace/Split are compared in rune-decoded form (invalid bytes appear as U+FFFD), as the engine works on runes")
 	h.Ceiling("compile-error", 0.25)
 	h.Main(m)
